@@ -97,7 +97,25 @@ type T struct {
 	Tier          string
 	parent        *T
 	mu            sync.Mutex
+	capped        bool
 }
+
+// Deadline is the end of the run's budget (zero: none). An explorer inside a case stops
+// starting new executions once it has passed and marks the case as capped; the family is then
+// reported with exhaustive:false (the exit status is unaffected).
+var Deadline time.Time
+
+// Capped marks this case as not fully explored (budget or an explicit cap reached).
+func (t *T) Capped() {
+	for x := t; x != nil; x = x.parent {
+		x.mu.Lock()
+		x.capped = true
+		x.mu.Unlock()
+	}
+}
+
+// PastDeadline reports whether the run's budget is used up.
+func PastDeadline() bool { return !Deadline.IsZero() && time.Now().After(Deadline) }
 
 // Child returns a T for one sub-execution (a BFS transition, a schedule) that may run
 // concurrently with other children; its failures carry the given choice sequence and
@@ -322,6 +340,9 @@ func runFamily(c *Check, f *Family, tier string, res *result, deadline time.Time
 			f.Run(t, i)
 		}()
 		atomic.AddInt64(&done, 1)
+		if t.capped {
+			atomic.StoreInt32(&timedOut, 1)
+		}
 		if t.nontrivial {
 			atomic.AddInt64(&nontriv, 1)
 		}
@@ -677,7 +698,19 @@ func Main(c *Check, args []string) int {
 		fams = c.Families(rt)
 		for _, f := range fams {
 			if f.Name == fl.Family {
-				runFamily(c, f, rt, res, time.Now().Add(time.Hour), fl.Index, fl.Choices)
+				crashed := false
+				if f.Isolated {
+					// a case of an isolated family may kill the process: run it in worker
+					// processes first (address-space limit, crash classification)
+					if sf := stallFailure(c, f, rt, fl.Index, 10*time.Minute); sf != nil {
+						sf.Property = c.ID
+						res.addFailure(*sf)
+						crashed = true
+					}
+				}
+				if !crashed {
+					runFamily(c, f, rt, res, time.Now().Add(time.Hour), fl.Index, fl.Choices)
+				}
 				if len(res.failures) == 0 {
 					fmt.Printf("REPLAY property=%s family=%s index=%d: no violation\n", c.ID, fl.Family, fl.Index)
 					return 0
@@ -693,6 +726,7 @@ func Main(c *Check, args []string) int {
 		return 2
 	}
 	deadline := start.Add(budget(tier))
+	Deadline = deadline
 	allEx := true
 	for _, f := range fams {
 		if tier == "quick" && f.ThoroughOnly {
